@@ -29,44 +29,92 @@ import numpy as np
 from .. import reflect
 
 
-def small_dag(rng: random.Random, size: int, density: float):
-    """DictOfNamedArrays over (4,) and (2,2) float arrays"""
+def plan_dag(rng: random.Random, size: int):
+    """a seeded plan of a small DAG: [(function, operand numbers)], outputs.  Node numbers: 0..2 the
+    leaves, 3+i the i-th planned node.  Every node draws its operands from all earlier ones."""
     import pytato as pt
-    from pytato.tags import ImplStored
-    p = pt.make_placeholder("p", (4,), np.float64)
-    q = pt.make_placeholder("q", (4,), np.float64)
-    w = pt.make_data_wrapper(np.arange(4.0) + 1)
-    pool = [p, q, w]
-    interior = []
     unary = [pt.sin, pt.cos, pt.exp, lambda a: -a, lambda a: a * 2, lambda a: a + 1]
     binary = [lambda a, b: a + b, lambda a, b: a * b, lambda a, b: a - b, pt.maximum]
     other = [lambda a: pt.reshape(pt.reshape(a, (2, 2)).T, (4,)), lambda a: pt.roll(a, 1),
              lambda a: pt.stack([a, a])[1], lambda a: pt.concatenate([a, a])[2:6], lambda a: a[::-1],
              pt.zeros_like, pt.ones_like]
-    for _ in range(size):
-        c = rng.random()
-        # operands: half of the time among the three newest nodes (chains), else anywhere (fan-out)
+    steps = []
+    for i in range(size):
+        npool = 3 + i
+
         def pick():
-            return rng.choice(pool[-3:]) if rng.random() < 0.5 else rng.choice(pool)
+            # half of the time among the three newest nodes (chains), else anywhere (fan-out)
+            return rng.randrange(max(0, npool - 3), npool) if rng.random() < 0.5 else rng.randrange(npool)
+        c = rng.random()
         if c < 0.3:
-            n = rng.choice(unary)(pick())
+            steps.append((rng.choice(unary), (pick(),)))
         elif c < 0.85:
-            n = rng.choice(binary)(pick(), pick())
+            steps.append((rng.choice(binary), (pick(), pick())))
         else:
-            n = rng.choice(other)(pick())
-        if rng.random() < density:
-            n = n.tagged(ImplStored())
-        pool.append(n)
-        interior.append(n)
+            steps.append((rng.choice(other), (pick(),)))
     # outputs: every node nothing uses (so that the whole graph is live) and up to two used ones
     # (outputs that other outputs use); now and then a single output, the rest dead
-    used = {id(c) for n in interior for _, c in reflect.children(n)}
-    sinks = [n for n in interior if id(n) not in used]
+    used = {o for _, ops in steps for o in ops}
+    sinks = [3 + i for i in range(size) if 3 + i not in used]
     if rng.random() < 0.15:
-        outs = [interior[-1]]
+        outs = [3 + size - 1]
     else:
-        outs = sinks + rng.sample(interior, min(rng.randint(0, 2), len(interior)))
-    return pt.make_dict_of_named_arrays({f"o{i}": o for i, o in enumerate(outs)})
+        outs = sinks + rng.sample(range(3, 3 + size), min(rng.randint(0, 2), size))
+    return steps, outs
+
+
+def build(plan, tagged=frozenset()):
+    """(DictOfNamedArrays, the planned nodes) over (4,) float arrays; the nodes numbered in
+    `tagged` carry ImplStored"""
+    import pytato as pt
+    from pytato.tags import ImplStored
+    steps, outs = plan
+    pool = [pt.make_placeholder("p", (4,), np.float64), pt.make_placeholder("q", (4,), np.float64),
+            pt.make_data_wrapper(_DATA)]
+    for i, (fn, ops) in enumerate(steps):
+        n = fn(*(pool[o] for o in ops))
+        if 3 + i in tagged:
+            n = n.tagged(ImplStored())
+        pool.append(n)
+    return pt.make_dict_of_named_arrays({f"o{k}": pool[o] for k, o in enumerate(outs)}), pool
+
+
+_DATA = np.arange(4.0) + 1
+
+
+def tag_sets(rng: random.Random, plan, picks: set[int]) -> list[tuple[str, frozenset]]:
+    """where the generator places ImplStored before the transformation: nowhere; at random; and
+    relative to the nodes the materializer picks on the untagged graph — on their users (above),
+    on their operands (below), on a mix"""
+    steps, _ = plan
+    nodes = list(range(3, 3 + len(steps)))
+    above = sorted({3 + i for i, (_, ops) in enumerate(steps) if set(ops) & picks} - picks)
+    below = sorted({o for i, (_, ops) in enumerate(steps) if 3 + i in picks for o in ops if o >= 3} - picks)
+
+    def some(xs):
+        xs = list(xs)
+        return frozenset(rng.sample(xs, rng.randint(1, len(xs)))) if xs else None
+    out = [("none", frozenset()),
+           ("random", frozenset(n for n in nodes if rng.random() < 0.3))]
+    for label, xs in (("above-the-picked", above), ("below-the-picked", below),
+                      ("around-the-picked", sorted(set(above) | set(below) | picks)),
+                      ("above-and-random", sorted(set(above) | {n for n in nodes if rng.random() < 0.2}))):
+        t = some(xs)
+        if t is not None:
+            out.append((label, t))
+    # and one decision at a time, right above / right below a picked node
+    out += [("one-above-the-picked", frozenset([x])) for x in above]
+    out += [("one-below-the-picked", frozenset([x])) for x in below]
+    return out
+
+
+def same_tags_everywhere(a, b) -> bool:
+    """same shape, and node by node the same tags (reflective; pytato's == is asked separately)"""
+    pm = partners(a, b)
+    if pm is None:
+        return False
+    return all(getattr(x, "tags", None) == getattr(pm[id(x)], "tags", None)
+               for x in reflect.walk(a, into_functions=True))
 
 
 def stored(expr) -> list:
@@ -97,68 +145,88 @@ def partners(a, b) -> dict[int, object] | None:
 def check_idempotence(ctx, transformations, fingerprint):
     import pytato as pt
     T = {k: f for k, (f, props) in transformations.items() if "idempotent" in props}
-    N = 2500 if ctx.thorough else 360
-    n = bad = changed_second = 0
+    N = 1500 if ctx.thorough else 130
+    n = bad = 0
     per = {k: 0 for k in T}
     acted = {k: 0 for k in T}
-    pre_above = 0
+    placements: dict[str, int] = {}
+    more_than_user = 0
     reported = set()
     for i in range(N):
-        rng = random.Random(ctx.seed * 104729 + i)
-        size = rng.randint(3, 11)
-        density = (0.0, 0.2, 0.45)[i % 3]
-        spec = {"family": "c05_idempotence.small_dag", "seed": ctx.seed * 104729 + i, "size": size, "density": density}
-        g0 = small_dag(rng, size, density)
+        seed = ctx.seed * 104729 + i
+        rng = random.Random(seed)
+        size = rng.randint(4, 13)
+        plan = plan_dag(rng, size)
+        # what the materializer picks when the user has decided nothing
+        picks: set[int] = set()
         try:
-            g = pt.transform.deduplicate(g0)
-        except Exception:   # noqa: BLE001  (the main batch reports deduplicate raising)
-            continue
-        pre = set(stored(g))
-        for name, f in T.items():
+            g_plain, pool = build(plan)
+            g_plain_d = pt.transform.deduplicate(g_plain)
+            pm = partners(g_plain, pt.materialize_with_mpms(g_plain_d))
+            if pm is not None:
+                st = {id(x) for x in stored(pm[id(g_plain)])}
+                picks = {k for k, node in enumerate(pool) if k >= 3 and id(node) in pm and id(pm[id(node)]) in st}
+        except Exception:   # noqa: BLE001  (the main batch reports a transformation raising)
+            pass
+        for label, tagged in tag_sets(rng, plan, picks):
+            spec = {"family": "c05_idempotence", "seed": seed, "size": size, "placement": label,
+                    "tagged": sorted(tagged)}
+            g0, _ = build(plan, tagged)
             try:
-                # (deduplicate gets the graph as built; the others require a deduplicated one)
-                once = f(g0 if name == "deduplicate" else g)
-            except Exception:   # noqa: BLE001  (the main batch reports a transformation raising)
+                g = pt.transform.deduplicate(g0)
+            except Exception:   # noqa: BLE001
                 continue
-            n += 1
-            per[name] += 1
-            s1 = set(stored(once))
-            acted[name] += fingerprint(once) != fingerprint(g0 if name == "deduplicate" else g)
-            pre_above += bool(pre) and len(s1) > len(pre)
-            problem = None
-            try:
-                twice = f(once)
-            except Exception as e:   # noqa: BLE001
-                problem = (f"second-application-raises:{type(e).__name__}", str(e)[:200])
-                twice = None
-            if twice is not None:
-                s2 = set(stored(twice))
-                if s1 != s2:
-                    problem = ("not-idempotent",
-                               f"the second application stores {len(s2 - s1)} more / {len(s1 - s2)} fewer node(s): "
-                               f"{[type(x).__name__ for x in (s2 ^ s1)][:4]}")
-                elif not (twice == once) or fingerprint(twice) != fingerprint(once):
-                    problem = ("not-idempotent", "the second application changes the graph")
-            if problem is None and name == "materialize_with_mpms":
-                # only adds decisions: the node at the place of one the user stored is stored
-                pm = partners(g, once)
-                ids1 = {id(x) for x in stored(once)}
-                lost = None if pm is None else [x for x in stored(g) if id(pm[id(x)]) not in ids1]
-                if pm is None:
-                    problem = ("changes-more-than-tags", "the result does not have the shape of the argument")
-                elif lost:
-                    problem = ("drops-user-decision", f"{len(lost)} node(s) tagged ImplStored beforehand are not afterwards")
-            if problem is None:
-                continue
-            bad += 1
-            changed_second += 1
-            sig = f"transform:{name}:{problem[0]}"
-            if sig in reported:
-                continue
-            reported.add(sig)
-            ctx.violation(sig, f"{name} on a graph of {size} nodes with {len(pre)} node(s) stored beforehand "
-                               f"({spec}): {problem[1]}; stored after one application: {len(s1)}",
-                          {"check": "idempotence", "transformation": name, "graph": spec})
-    ctx.note_batch("idempotence-on-pre-materialized-graphs", n, bad, exhaustive=False, graphs=N,
-                   applications=per, applications_that_changed_the_graph=acted,
-                   cases_where_the_call_stored_more_than_the_user=pre_above)
+            placements[label] = placements.get(label, 0) + 1
+            n_pre = len(stored(g))
+            for name, f in T.items():
+                if name != "materialize_with_mpms" and label not in ("none", "random"):
+                    continue        # the tags matter to the materializer only
+                arg = g0 if name == "deduplicate" else g      # (the others require a deduplicated graph)
+                try:
+                    once = f(arg)
+                except Exception:   # noqa: BLE001
+                    continue
+                n += 1
+                per[name] += 1
+                s1 = set(stored(once))
+                acted[name] += (len(list(reflect.walk(once))) < len(list(reflect.walk(arg)))) if name == "deduplicate" \
+                    else not (once == arg)
+                more_than_user += name == "materialize_with_mpms" and bool(n_pre) and len(s1) > n_pre
+                problem = None
+                try:
+                    twice = f(once)
+                except Exception as e:   # noqa: BLE001
+                    problem = (f"second-application-raises:{type(e).__name__}", str(e)[:200])
+                    twice = None
+                if twice is not None:
+                    s2 = set(stored(twice))
+                    if s1 != s2:
+                        problem = ("not-idempotent",
+                                   f"the second application stores {len(s2 - s1)} more / {len(s1 - s2)} fewer node(s): "
+                                   f"{[type(x).__name__ for x in (s2 ^ s1)][:4]}")
+                    elif not (twice == once) or not same_tags_everywhere(once, twice) \
+                            or (n % 7 == 0 and fingerprint(twice) != fingerprint(once)):
+                        problem = ("not-idempotent", "the second application changes the graph")
+                if problem is None and name == "materialize_with_mpms":
+                    # only adds decisions: the node at the place of one the user stored is stored
+                    pm = partners(g, once)
+                    ids1 = {id(x) for x in stored(once)}
+                    lost = None if pm is None else [x for x in stored(g) if id(pm[id(x)]) not in ids1]
+                    if pm is None:
+                        problem = ("changes-more-than-tags", "the result does not have the shape of the argument")
+                    elif lost:
+                        problem = ("drops-user-decision",
+                                   f"{len(lost)} node(s) tagged ImplStored beforehand are not afterwards")
+                if problem is None:
+                    continue
+                bad += 1
+                sig = f"transform:{name}:{problem[0]}"
+                if sig in reported:
+                    continue
+                reported.add(sig)
+                ctx.violation(sig, f"{name} on a graph of {size} nodes with {n_pre} node(s) stored beforehand "
+                                   f"({spec}): {problem[1]}; stored after one application: {len(s1)}",
+                              {"check": "idempotence", "transformation": name, "graph": spec})
+    ctx.note_batch("idempotence-on-pre-materialized-graphs", n, bad, exhaustive=False, plans=N,
+                   placements=placements, applications=per, applications_that_changed_the_graph=acted,
+                   cases_where_the_call_stored_more_than_the_user=more_than_user)
